@@ -29,6 +29,7 @@ def run(chk):
         base = {"nx": 1, "ny": rng.choice([1, 2]), "months": (24 if k % 3 == 1 else 12), "H": 100.0, "heights": [40.0, 97.5, 135.0, 200.0], "loads": {"kind": ["balanced", "heating", "cooling"][k % 3], "scale": 6000.0, "seed": k + 1},
                 "pipe": ["SINGLEUTUBE", "DOUBLEUTUBESERIES", "COAXIAL"][k % 3]}
         hs = [fin] + [gen_ops(rng, rng.randrange(1, 5), fin) for _ in range(3)]
+        hs.append([["setH", rng.choice([190.0, 45.0])], ["hybrid"]] + fin)          # a simulation at a height far from the nominal one came first
         for h in hs:
             cases.append(dict(base, ops=h, _group=k))
     from concurrent.futures import ThreadPoolExecutor
